@@ -110,24 +110,34 @@ def exponentOf : List Nat → Option Int
       else some (match r with | 0x2D :: _ => -(digitsValue ds : Int) | _ => (digitsValue ds : Int))
     else none
 
+/-- the spellings left open, recognisable by how the text (after its sign) begins: `i…` / `n…` (infinity, not-a-number, in
+any letter case) and `0x…` / `0X…` (hexadecimal) -/
+def opensSpecial : List Nat → Bool
+  | c :: r => c == 0x69 || c == 0x49 || c == 0x6E || c == 0x4E ||
+      (c == 0x30 && (match r with | x :: _ => x == 0x78 || x == 0x58 | [] => false))
+  | [] => false
+
+/-- what follows a decimal point, if the text starts with one -/
+def afterPoint : List Nat → Option (List Nat)
+  | 0x2E :: r => some r
+  | _ => none
+
+/-- an unsigned decimal numeral: digits, optionally a point and digits (one digit at least in all), optionally an
+exponent part; `ip` are the digits before the point: the value is below 10^(|ip| + exponent) -/
+def decimalKind (body : List Nat) : Numeral :=
+  let ip := body.takeWhile isDigit
+  let r1 := body.dropWhile isDigit
+  let fp := match afterPoint r1 with | some r' => r'.takeWhile isDigit | none => []
+  let r2 := match afterPoint r1 with | some r' => r'.dropWhile isDigit | none => r1
+  if ip.isEmpty && fp.isEmpty then .malformed else
+  match exponentOf r2 with
+  | none => .malformed
+  | some e => if (ip.length : Int) + e ≤ 308 then .decimal else .open_
+
 /-- what kind of numeral a text (after `numberRewrite`) is -/
 def numeralKind (t : List Nat) : Numeral :=
-  if t.contains 0x5F then .open_ else
-  let body := unsigned t
-  match body with
-  | [] => .malformed
-  | c :: r =>
-    if c == 0x69 || c == 0x49 || c == 0x6E || c == 0x4E then .open_
-    else if c == 0x30 && (match r with | x :: _ => x == 0x78 || x == 0x58 | [] => false) then .open_
-    else
-      let ip := body.takeWhile isDigit
-      let r1 := body.dropWhile isDigit
-      let (fp, r2) := match r1 with
-        | 0x2E :: r' => (r'.takeWhile isDigit, r'.dropWhile isDigit)
-        | _ => ([], r1)
-      if ip.isEmpty && fp.isEmpty then .malformed else
-      match exponentOf r2 with
-      | none => .malformed
-      | some e => if (ip.length : Int) + e ≤ 308 then .decimal else .open_
+  if t.contains 0x5F then .open_
+  else if opensSpecial (unsigned t) then .open_
+  else decimalKind (unsigned t)
 
 end ZnVerif.Spec.TextOps
